@@ -28,7 +28,12 @@ Model.Effects.sk_estimator_fit: exactly the receiver changes), fitted estimators
 score; (c) exception paths: every configuration once more with an exception injected at a random internal function call
 (variant "kind!k"); Corr.C15.agree compares a call that raised with the interruption points `run sk n` of the skeleton;
 (d) tucker_mode_dot(copy=False) / index_update skeletons; (e) 48 more functions in the static correspondence; (f) compact case
-literals (binary numerals, buffers by length) and the Coq build / Print Assumptions pass in a worker thread."""
+literals (binary numerals, buffers by length) and the Coq build / Print Assumptions pass in a worker thread.
+
+Round 8: (a) Corr.C15.ycmd_of: the kinds KInitCpN / KParafacN / KHalsN / KTryEntropy / KTryTtCross / KXNnTuckerHalsActiveSet are also evaluated
+under the structured-exception semantics of Model/EffectsR8.v (try statements of any nesting, handlers that raise); (b) kinds
+KNnTuckerHalsN / KNnTuckerHalsClassFit (nn_tucker_hals_kind): non_negative_tucker_hals with the fista core update, every order;
+(c) the three documented in-place exceptions of the property are audited per run (EXCEPTION_CLASSES / RECEIVER_CLASSES)."""
 import contextlib, copy, io, random, sys, time, zlib
 import numpy as np
 from harness import common as C
